@@ -149,6 +149,7 @@ type State struct {
 	events   []Event
 	dead     bool
 	gmaps    []guardedMap // map references loaded from mutex-guarded fields on this path
+	lastRecv *Term        // the channel the function most recently received from on this path
 	lastCall string       // site of the most recent call made by the function under contract on this path
 	txnCount int          // database transactions completed on this path
 	strConvs []strConv    // []byte(s) conversions made on this path: the fresh array and the string it holds
@@ -169,7 +170,7 @@ type guardedMap struct {
 }
 
 func (s *State) clone() *State {
-	t := &State{alloc: s.alloc, clock: s.clock, gmaps: s.gmaps[:len(s.gmaps):len(s.gmaps)], txnCount: s.txnCount, lastCall: s.lastCall, strConvs: s.strConvs[:len(s.strConvs):len(s.strConvs)]}
+	t := &State{alloc: s.alloc, clock: s.clock, gmaps: s.gmaps[:len(s.gmaps):len(s.gmaps)], txnCount: s.txnCount, lastCall: s.lastCall, lastRecv: s.lastRecv, strConvs: s.strConvs[:len(s.strConvs):len(s.strConvs)]}
 	t.pc = append([]string{}, s.pc...)
 	t.heaps = make(map[string]*Term, len(s.heaps))
 	for k, v := range s.heaps {
